@@ -77,6 +77,30 @@ def oracle(case, obs):
     return None
 
 
+def _spell(rng, h):
+    k = rng.randrange(4)
+    if k == 0:
+        return h.upper()
+    if k == 1:
+        return " ".join(h[i:i + 2] for i in range(0, len(h), 2))
+    if k == 2:
+        return " " + h + "\n"
+    return "".join(c.upper() if rng.random() < 0.5 else c for c in h)
+
+
+def respell(rng, req):
+    import copy
+    r = copy.deepcopy(req)
+    if "auth" in r:
+        r["auth"]["receipt"] = _spell(rng, r["auth"]["receipt"])
+        r["auth"]["receipt_merkle_proof"] = [_spell(rng, n) for n in r["auth"]["receipt_merkle_proof"]]
+    m = r["message"]
+    for f in ("hash", "witnessScript", "tx"):
+        if isinstance(m, dict) and f in m and rng.random() < 0.7:
+            m[f] = _spell(rng, m[f])
+    return r
+
+
 def gen_cases(rng, n):
     cases = []
     for i in range(n):
@@ -123,7 +147,21 @@ def gen_cases(rng, n):
                 d.inject[(0x02, 0x01)] = rng.choice([0x6A87, 0x6A8F, 0x6A90, 0x6A91, 0x6B01])
                 meta["device_success"] = False
         sr, ss = d.sign_sig
-        case = {"mode": mode, "kind": "ledger", "lines": [gen.line(req)], "device": d, "meta": meta}
+        wire = req
+        if mode == "v5" and rng.random() < 0.15:
+            # the same request with its hex strings spelt differently (upper case, blank-separated bytes,
+            # surrounding blanks): bytes.fromhex reads them all as the same bytes
+            wire = respell(rng, req)
+            meta["respelt"] = True
+        case = {"mode": mode, "kind": "ledger", "lines": [gen.line(wire)], "device": d, "meta": meta}
+        if kind in (0, 1) and 0.82 <= r < 0.9:
+            # history: an earlier request for the same receipt with another merkle proof (a retry with a
+            # corrected proof, or the same RSK transaction in a competing block)
+            import copy as _copy
+            first = _copy.deepcopy(req)
+            first["auth"]["receipt_merkle_proof"] = [n.hex() for n in gen.random_proof(rng)]
+            case["lines"] = [gen.line(first), gen.line(wire)]
+            meta["history"] = "same-receipt-other-proof"
         if r >= 0.9:
             # history: the same request first hits a link failure at some exchange, is repeated once the
             # link is back: the repaired link must carry the whole request to the device
